@@ -185,7 +185,10 @@ func extractTarDirectory(dirPath, dirName string, r io.Reader, buf []byte, prese
 		case tar.TypeReg:
 			err = writeFile(filePath, tr, header.FileInfo().Mode(), buf)
 		case tar.TypeDir:
-			err = os.MkdirAll(filePath, header.FileInfo().Mode())
+			// no path element below the base directory may be a symbolic link,
+			// the directory itself included: it would be followed by the
+			// creation of the entries below it and by os.Chmod
+			err = ensureDirNoSymlink(dirPath, filePath, header.FileInfo().Mode())
 		case tar.TypeLink:
 			// NOTE: ORAS does not generate hard links when creating tarballs.
 			// If a hard link is found in the tarball, it will be extracted.
